@@ -35,7 +35,12 @@ POOL = ["a", "A", "a", "A", "web", "WEB", "Web", "web", "", " x", "a b",
         "ß", "\u1e9e", "\u03a3", "\u03c3", "\u03c2",
         # any JSON string can arrive: a lone surrogate (\\ud800 escape),
         # which no encoding can put on the event channel
-        "x\ud800"]
+        "x\ud800",
+        # the names of the daemon's own helper watchers (statsd / httpd)
+        "circusd-stats", "circushttpd"]
+
+
+RESERVED = ('circusd-stats', 'circushttpd')
 
 
 def _encodable(name):
@@ -275,7 +280,13 @@ def execute(case):
                     classes.add('config-with-case-duplicates')
                 if rep.get("status") == "ok":
                     if len(set(lows)) == len(lows):
+                        # (watchers bearing the names of the daemon's own
+                        # helpers are outside the file's reach: reloadconfig
+                        # leaves them alone)
+                        kept = dict((kk, vv) for kk, vv in model.items()
+                                    if vv in RESERVED)
                         model.clear()
+                        model.update(kept)
                         for n in names:
                             model[n.lower()] = n
                     else:
